@@ -234,3 +234,52 @@ func H_interleave() {
 	}
 	rt.Reach("end")
 }
+
+// H_error_real: REGIME R (64 KiB blocks). Signed file of 2 blocks + 100 bytes (concrete); written = signed with one
+// symbolic byte in block blk; written in writes of `chunk` bytes (32 KiB as the validator does, 64 KiB+1, 100000).
+// Same oracle as H_error. Params blk, chunk.
+func H_error_real() {
+	hlib.SetCopyBuf()
+	B := hlib.B()
+	blk, chunk := rt.Param("blk"), rt.Param("chunk")
+	S := make([]byte, 2*B+100)
+	x := uint32(5)
+	for i := range S {
+		x = x*1103515245 + 12345
+		S[i] = byte(x >> 16)
+	}
+	root := rt.TempDir()
+	(&hlib.Build{Files: []hlib.File{{Path: "f", Data: S}}}).Write(root + "/s")
+	sig := hlib.SigOf(root + "/s")
+	inner := &recPool{c: sig.Container}
+	W := append([]byte{}, S...)
+	pos := blk*B + 17
+	d := rt.Byte("written-byte")
+	W[pos] = d
+	vp := &pwr.ValidatingPool{Pool: inner, Container: sig.Container, Signature: sig}
+	w, err := vp.GetWriter(0)
+	hlib.Must(err, "GetWriter")
+	failed := false
+	failEnd := 0
+	for p := 0; p < len(W) && !failed; p += chunk {
+		e := hlib.Min(p+chunk, len(W))
+		if _, err := w.Write(W[p:e]); err != nil {
+			failed, failEnd = true, e
+		}
+	}
+	closeFailed := w.Close() != nil
+	got := inner.w.buf.Bytes()
+	if d == S[pos] {
+		rt.Assert(!failed && !closeFailed, "data equal to the signed content passes (real constants)")
+		rt.Assert(len(got) == len(W) && rt.BytesEqual(got, W), "inner pool received everything unchanged (real constants)")
+	} else {
+		blockEnd := hlib.Min((blk+1)*B, len(W))
+		if blockEnd == (blk+1)*B {
+			rt.Assert(failed && failEnd >= blockEnd && failEnd-chunk < blockEnd, "the Write completing the bad block fails (real constants)")
+		} else {
+			rt.Assert(failed || closeFailed, "Close fails on the short bad block (real constants)")
+		}
+		rt.Assert(len(got) == blk*B && rt.BytesEqual(got, W[:blk*B]), "nothing from the bad block on reaches the inner pool (real constants)")
+	}
+	rt.Reach("end")
+}
